@@ -415,8 +415,9 @@ def rule_width(chk, prog):
         ops, kind = _ops_of_test(st.test, 'ident')
         if not ops:
             continue
-        rets = [s for s in ast.walk(st) if isinstance(s, ast.Return)]
-        branch[0] = st
+        body_mod = ast.Module(body=list(st.body), type_ignores=[])
+        rets = [s for s in ast.walk(body_mod) if isinstance(s, ast.Return)]
+        branch[0] = body_mod
         for op in ops:
             n += 1
             if op in NONSTANDARD:
@@ -426,14 +427,46 @@ def rule_width(chk, prog):
                 continue
             if op == 'concat':
                 txt = ' '.join(unparse(r.value) for r in rets if r.value)
-                ok = 'sum(' in txt and f'{param}[1:]' in unparse(st) and \
-                    'get_bv_width' in unparse(st)
+                btxt = unparse(body_mod)
+                ok = 'sum(' in txt and f'{param}[1:]' in btxt and \
+                    'get_bv_width' in btxt
+                if not ok:
+                    # accumulating loop: T = 0; for x in node[1:]:
+                    #   T += get_bv_width(x) (possibly through a local)
+                    for lp in ast.walk(body_mod):
+                        if not (isinstance(lp, ast.For) and unparse(
+                                lp.iter) == f'{param}[1:]' and isinstance(
+                                    lp.target, ast.Name)):
+                            continue
+                        lv = lp.target.id
+                        ldefs = {a.targets[0].id: a.value
+                                 for a in ast.walk(lp)
+                                 if isinstance(a, ast.Assign)
+                                 and isinstance(a.targets[0], ast.Name)}
+                        for a in ast.walk(lp):
+                            if isinstance(a, ast.AugAssign) and isinstance(
+                                    a.op, ast.Add) and isinstance(
+                                        a.target, ast.Name):
+                                v = a.value
+                                if isinstance(v, ast.Name) and v.id in ldefs:
+                                    v = ldefs[v.id]
+                                acc = a.target.id
+                                init = [x for x in ast.walk(body_mod)
+                                        if isinstance(x, ast.Assign)
+                                        and unparse(x.targets[0]) == acc
+                                        and is_const(x.value, 0)]
+                                if unparse(v) == f'get_bv_width({lv})' and \
+                                        init and any(
+                                            r.value is not None and unparse(
+                                                r.value) == acc
+                                            for r in rets):
+                                    ok = True
                 chk.check('C16.R1', where, 'concat -> sum of the widths of '
                           'all arguments', ok, 'concat width is not the sum '
                           f'over {param}[1:]', loc=m.loc(st), nontrivial=True)
                 continue
             if op == 'ite':
-                txt = unparse(st)
+                txt = unparse(body_mod)
                 ok = f'get_bv_width({param}[2])' in txt
                 chk.check('C16.R1', where, 'ite -> width of argument 2', ok,
                           'ite width not taken from the then-branch',
@@ -470,15 +503,39 @@ def rule_width(chk, prog):
                       f'SMT-LIB: {poly_str(ref)}', loc=m.loc(st),
                       nontrivial=True)
     chk.floor('C16.R1', 'operators in the width table', n, 28)
-    # constants and declared symbols
-    txt = unparse(f)
-    for lab, frag in (("#b: one bit per digit", "len(data[2:])"),
-                      ("#x: four bits per digit", "len(data[2:]) * 4"),
-                      ("(_ bvN w): index 2", f"int({param}[2].data)"),
-                      ("declared symbol: index 2 of its (_ BitVec w) sort",
-                       "int(bvsort[2].data)")):
-        chk.check('C16.R1', where, lab, frag in txt,
-                  f'width rule "{lab}" not found', loc=m.loc(f),
+    # constants and declared symbols: a return whose value (locals
+    # expanded) has the documented form under the facts that select the case
+    from ..astutil import expand_locals
+
+    def has_return(value_forms, need):
+        for r in walk_no_nested(f):
+            if not (isinstance(r, ast.Return) and r.value is not None):
+                continue
+            v = unparse(expand_locals(f, r.value)).replace(' ', '')
+            if v not in value_forms:
+                continue
+            facts = facts_at(f, r)
+            if all(any(pol == p_ and t_.replace(' ', '') == t.replace(
+                    ' ', '') for (t_, p_) in facts) for (t, pol) in need):
+                return True
+        return False
+
+    d = f'{param}.data'
+    cases = (
+        ('#b: one bit per digit', {f'len({d}[2:])'},
+         [(f"{d}.startswith('#b')", True)]),
+        ('#x: four bits per digit', {f'len({d}[2:])*4', f'4*len({d}[2:])'},
+         [(f"{d}.startswith('#b')", False)]),
+        ('(_ bvN w): index 2', {f'int({param}[2].data)'},
+         [(f'{param}.is_leaf()', False), (f'is_bv_const({param})', True)]),
+        ('declared symbol: index 2 of its (_ BitVec w) sort',
+         {f'int(__sort_lookup[{param}][2].data)'},
+         [(f'is_bv_sort(__sort_lookup[{param}])', True)]),
+    )
+    for lab, forms, need in cases:
+        chk.check('C16.R1', where, lab, has_return(forms, need),
+                  f'width rule "{lab}" not found (no return of '
+                  f'{sorted(forms)} under {need})', loc=m.loc(f),
                   nontrivial=True)
 
 
@@ -624,72 +681,206 @@ def rule_r4(chk, prog):
     chk.check('C16.R4', where, 'bit-vector constants keep the width of the '
               'sort', ok, 'bit-vector default constants do not reuse index 2 '
               'of the requested sort', loc=m.loc(f), nontrivial=True)
-    # short FP names
-    got = {}
-    for st in ast.walk(f):
-        if isinstance(st, ast.If) and isinstance(st.test, ast.Compare) and \
-                unparse(st.test.left) == f'{param}.data' and is_const(
-                    st.test.comparators[0]):
-            name = st.test.comparators[0].value
-            vals = {unparse(s.targets[0]): s.value.value for s in st.body
-                    if isinstance(s, ast.Assign) and is_const(s.value)}
-            got[name] = (vals.get('ew'), vals.get('sw'))
-    # the else branch (assert Float128)
-    for st in ast.walk(f):
-        if isinstance(st, ast.Assert) and 'Float128' in unparse(st.test):
-            par = getattr(st, '_parent', None)
-            sib = [s for s in par.orelse if isinstance(s, ast.Assign)]
-            vals = {unparse(s.targets[0]): s.value.value for s in sib
-                    if is_const(s.value)}
-            got['Float128'] = (vals.get('ew'), vals.get('sw'))
-    for name, (eb, sb) in FP_REF.items():
-        g = got.get(name)
-        ok = g == (eb, sb - 1)
-        chk.check('C16.R4', where, f'{name} -> (ew, sw) = {g}', ok,
-                  f'{name} is (_ FloatingPoint {eb} {sb}); its constant '
-                  f'fields must have widths 1/{eb}/{sb - 1}, the table has '
-                  f'{g}', loc=m.loc(f), nontrivial=True)
-    # long form: ew = sort[-2], sw = sort[-1] - 1
-    ok = f'ew=int({param}[-2].data)' in txt and \
-        f'sw=int({param}[-1].data)-1' in txt
-    chk.check('C16.R4', where, '(_ FloatingPoint eb sb): ew = eb, sw = sb-1',
-              ok, 'field widths for the long FP sort form are wrong',
-              loc=m.loc(f), nontrivial=True)
-    for nm, w in (('sign', '1'), ('signm', '1'), ('zero_ew', 'ew'),
-                  ('zero_sw', 'sw'), ('one_sw', 'sw'), ('ones_ew', 'ew')):
-        d = [s for s in ast.walk(f) if isinstance(s, ast.Assign)
-             and unparse(s.targets[0]) == nm]
-        ok = len(d) == 1 and isinstance(d[0].value, ast.Call) and unparse(
-            d[0].value.args[-1]) == w
-        chk.check('C16.R4', where, f'{nm} has width {w}', ok,
-                  f'FP field {nm} does not have width {w}', loc=m.loc(f),
-                  nontrivial=True)
+    # ---- floating point: field widths.  The six constants are
+    # Node('fp', S, E, M); E and M are built with a width argument; the
+    # origins of those width values (through locals, tuple unpacking and one
+    # level of helper functions) are constants guarded by a short sort name,
+    # or read off the long sort form.
+    from ..astutil import subst as _subst
+
+    def assigns_of(fn, name):
+        out = []
+        for st in ast.walk(fn):
+            if isinstance(st, ast.Assign):
+                for t in st.targets:
+                    if isinstance(t, ast.Name) and t.id == name:
+                        out.append((st, st.value, None))
+                    elif isinstance(t, ast.Tuple):
+                        for i_, x in enumerate(t.elts):
+                            if isinstance(x, ast.Name) and x.id == name:
+                                out.append((st, st.value, i_))
+        return out
+
+    def short_name_at(fn, site):
+        """FloatN established at ``site`` by a dominating comparison (after
+        alias expansion) or by an assert earlier in the same block."""
+        names = set()
+        for (t, pol) in facts_at(fn, site):
+            if pol and '==' in t:
+                for nm in FP_REF:
+                    if t.endswith(f"== '{nm}'") or t.startswith(f"'{nm}' =="):
+                        names.add(nm)
+        if names:
+            return names
+        st = site
+        while st is not None and not isinstance(st, ast.stmt):
+            st = getattr(st, '_parent', None)
+        par = getattr(st, '_parent', None)
+        for fld in ('body', 'orelse'):
+            blk = getattr(par, fld, None)
+            if isinstance(blk, list) and st in blk:
+                for prev in blk[:blk.index(st)]:
+                    if isinstance(prev, ast.Assert):
+                        for nm in FP_REF:
+                            if f"'{nm}'" in unparse(prev.test):
+                                names.add(nm)
+        return names
+
+    def origins(fn, e, depth=0):
+        """[(kind, value, short names)] for a width expression."""
+        if depth > 5:
+            return [('unknown', unparse(e), set())]
+        if isinstance(e, ast.Constant) and isinstance(e.value, int):
+            return [('const', e.value, short_name_at(fn, e))]
+        if isinstance(e, ast.Name):
+            res = []
+            if e.id in params_of(fn):
+                return [('param', e.id, set())]
+            for (st, v, idx) in assigns_of(fn, e.id):
+                if idx is None:
+                    res += origins(fn, v, depth + 1)
+                elif isinstance(v, ast.Tuple) and idx < len(v.elts):
+                    res += origins(fn, v.elts[idx], depth + 1)
+                elif isinstance(v, ast.Call) and call_name(v) in m.funcs:
+                    h = m.funcs[call_name(v)]
+                    hp = params_of(h)
+                    env = dict(zip(hp, v.args))
+                    for r in ast.walk(h):
+                        if isinstance(r, ast.Return) and isinstance(
+                                r.value, ast.Tuple) and idx < len(
+                                    r.value.elts):
+                            for (k_, val, nms) in origins(
+                                    h, r.value.elts[idx], depth + 1):
+                                if k_ == 'expr':
+                                    val = unparse(_subst(
+                                        ast.parse(val, mode='eval').body,
+                                        env))
+                                res.append((k_, val, nms))
+                else:
+                    res.append(('unknown', unparse(v), set()))
+            return res or [('unknown', e.id, set())]
+        return [('expr', unparse(e), set())]
+
     fps = [c for c in calls_in(f) if call_name(c) == 'Node' and c.args
            and is_const(c.args[0], 'fp')]
-    okf = bool(fps)
+    chk.floor('C16.R4', 'fp default constants', len(fps), 6)
+    okf = True
+    exp_w, sig_w = [], []
     for c in fps:
-        a = [unparse(x) for x in c.args[1:]]
-        okf = okf and len(a) == 3 and a[0] in ('sign', 'signm') and a[1] in (
-            'zero_ew', 'ones_ew') and a[2] in ('zero_sw', 'one_sw')
-    chk.check('C16.R4', where, 'fp constants are (sign, exponent, '
-              'significand) in this order', okf,
-              'an fp default constant has its fields in the wrong order',
+        if len(c.args) != 4:
+            okf = False
+            continue
+        widths = []
+        for a in c.args[1:]:
+            d = a
+            if isinstance(a, ast.Name):
+                ds = assigns_of(f, a.id)
+                d = ds[0][1] if len(ds) == 1 else None
+            if not (isinstance(d, ast.Call) and call_name(d) == 'Node'
+                    and len(d.args) == 3):
+                widths.append(None)
+            else:
+                widths.append(d.args[2])
+        if any(w is None for w in widths):
+            okf = False
+            continue
+        okf = okf and is_const(widths[0], 1)
+        exp_w.append(widths[1])
+        sig_w.append(widths[2])
+    chk.check('C16.R4', where, 'fp constants are (sign of width 1, '
+              'exponent, significand) in this order', okf,
+              'an fp default constant is not built from three bit-vector '
+              'nodes (sign of width 1, exponent, significand)',
               loc=m.loc(f), nontrivial=True)
-    # sibling table: FPShortSort
+    for role, ws, idx_long, delta in (('exponent', exp_w, -2, 0),
+                                      ('significand', sig_w, -1, -1)):
+        got = {}
+        long_ok = False
+        unknown = []
+        for w in ws:
+            for (k_, val, nms) in origins(f, w):
+                if k_ == 'const':
+                    for nm in nms:
+                        got.setdefault(nm, set()).add(val)
+                    if not nms:
+                        unknown.append(f'constant {val} without a sort name')
+                elif k_ == 'expr':
+                    v0 = val.replace(' ', '')
+                    want_long = f'int({param}[{idx_long}].data)' + (
+                        f'{delta}' if delta else '')
+                    want_raw = f'{param}[{idx_long}]' + (
+                        f'{delta}' if delta else '')
+                    if v0 == want_long:
+                        long_ok = True
+                    elif v0 != want_raw:
+                        unknown.append(val)
+                else:
+                    unknown.append(f'{k_} {val}')
+        for name, (eb, sb) in FP_REF.items():
+            wantv = eb if role == 'exponent' else sb - 1
+            g = got.get(name)
+            chk.check('C16.R4', where, f'{name}: {role} width {g}',
+                      g == {wantv},
+                      f'{name} is (_ FloatingPoint {eb} {sb}); the {role} '
+                      f'field of its constants must have width {wantv}, '
+                      f'the code uses {sorted(g) if g else None}',
+                      loc=m.loc(f), nontrivial=True)
+        chk.check('C16.R4', where, f'(_ FloatingPoint eb sb): {role} width '
+                  f'from index {idx_long}' + (' minus 1' if delta else ''),
+                  long_ok and not unknown,
+                  f'the {role} width for the long FP sort form is not '
+                  f'int(sort[{idx_long}].data)' + (' - 1' if delta else '')
+                  + (f' (also found: {unknown[:3]})' if unknown else ''),
+                  loc=m.loc(f), nontrivial=True)
+    # sibling table: FPShortSort.  A row is what one guard (or one literal
+    # tuple / dict entry) associates with a short name.
     fm = prog.mod('mutators_fp')
     fs = fm.func('FPShortSort.mutations')
     tab = {}
-    for st in ast.walk(fm.tree):
-        if isinstance(st, ast.If) and isinstance(st.test, ast.BoolOp):
-            consts = [c.value for c in ast.walk(st.test)
-                      if isinstance(c, ast.Constant)
-                      and isinstance(c.value, str)]
-            names = [c.value for c in ast.walk(st.body[0])
-                     if isinstance(c, ast.Constant)
-                     and isinstance(c.value, str)
-                     and c.value.startswith('Float')]
-            if len(consts) == 2 and len(names) == 1:
-                tab[names[0]] = (int(consts[0]), int(consts[1]))
+
+    def ints_of(nodes_):
+        out = []
+        for x in nodes_:
+            for c in ast.walk(x):
+                par_ = getattr(c, '_parent', None)
+                if isinstance(par_, ast.Subscript) and par_.slice is c:
+                    continue  # an index, not a table entry
+                if isinstance(c, ast.Constant) and isinstance(
+                        c.value, (str, int)) and not isinstance(
+                            c.value, bool) and str(c.value).isdigit():
+                    out.append(int(c.value))
+        return out
+
+    scopes = [fs] + [v for vs in fm.globals.values() for v in vs]
+    for sc in scopes:
+        for st in ast.walk(sc):
+            if isinstance(st, ast.If):
+                names = [c.value for b in st.body for c in ast.walk(b)
+                         if isinstance(c, ast.Constant)
+                         and c.value in FP_REF]
+                nums = ints_of([st.test])
+                if len(names) == 1 and len(nums) == 2:
+                    tab[names[0]] = tuple(nums)
+            elif isinstance(st, (ast.Tuple, ast.List)):
+                names = [c.value for c in st.elts
+                         if isinstance(c, ast.Constant)
+                         and c.value in FP_REF]
+                nums = ints_of([c for c in st.elts
+                                if not (isinstance(c, ast.Constant)
+                                        and c.value in FP_REF)])
+                if len(names) == 1 and len(nums) == 2:
+                    tab[names[0]] = tuple(nums)
+            elif isinstance(st, ast.Dict):
+                for k_, v_ in zip(st.keys, st.values):
+                    if isinstance(k_, ast.Constant) and k_.value in FP_REF:
+                        nums = ints_of([v_])
+                        if len(nums) == 2:
+                            tab[k_.value] = tuple(nums)
+                    elif isinstance(v_, ast.Constant) and \
+                            v_.value in FP_REF and k_ is not None:
+                        nums = ints_of([k_])
+                        if len(nums) == 2:
+                            tab[v_.value] = tuple(nums)
     chk.check('C16.R4', 'mutators_fp.FPShortSort.mutations',
               f'abbreviation table {tab}', tab == FP_REF,
               f'FPShortSort abbreviates {tab}; SMT-LIB: {FP_REF}',
